@@ -22,6 +22,8 @@ Fixpoint cof (l : lcoins) : fcoins :=
 Definition cdenoms (l : lcoins) : list Z := map fst l.
 (* a >= b on the listed denoms *)
 Definition cge_on (ds : list Z) (a b : fcoins) : bool := forallb (fun d => b d <=? a d) ds.
+(* sdk.Coins.IsValid, as far as amounts go: every listed amount is positive (the bank rejects others) *)
+Definition coins_valid (l : lcoins) : bool := forallb (fun e => 0 <? snd e) l.
 
 (* ---------------------------------------------------------------- association lists *)
 Fixpoint zget {A} (k : Z) (l : list (Z * A)) : option A :=
@@ -148,6 +150,7 @@ Definition sp_create (now p : Z) (T : terms) (s : sstate) : outcome sstate :=
 
 (* msg server: DepositSpendingPool *)
 Definition sp_deposit (a p : Z) (amt : lcoins) (s : sstate) : outcome sstate :=
+  if negb (coins_valid amt) then Err "invalid coins" else
   if negb (cge_on (cdenoms amt) (s_bank s a) (cof amt)) then Err "insufficient funds" else
   match zget p (s_pools s) with
   | None => Err "pool does not exist"
@@ -193,6 +196,7 @@ Fixpoint withdraw_loop (T : terms) (bens : list Z) (amt : lcoins) (bal : fcoins)
   | [] => Ok (bal, b)
   | a :: r =>
       if negb (is_allowed_ben T a) then Err "not pool beneficiary" else
+      if negb (coins_valid amt) then Err "invalid coins" else
       if negb (cge_on (cdenoms amt) (b MODULE) (cof amt)) then Err "insufficient module funds" else
       if negb (cge_on (cdenoms amt) bal (cof amt)) then Panic "negative coin amount (pool book)" else
       withdraw_loop T r amt (csub bal (cof amt)) (bank_send b MODULE a (cof amt))
@@ -260,6 +264,7 @@ Definition sp_apply (now : Z) (o : sp_op) (s : sstate) : outcome sstate :=
   | OWithdraw p bens amt => sp_withdraw p bens amt s
   | OEndBlock => sp_endblock now s
   | OBankSend a amt =>
+      if negb (coins_valid amt) then Err "invalid coins" else
       if negb (cge_on (cdenoms amt) (s_bank s a) (cof amt)) then Err "insufficient funds"
       else Ok (mkS (s_pools s) (s_claims s) (bank_send (s_bank s) a MODULE (cof amt)))
   end.
